@@ -154,10 +154,15 @@ def planeParamsFromPoints(pt1, pt2, pt3):
     params = [unit_normal[0], unit_normal[1], unit_normal[2], pos]
     flipped_params = [-unit_normal[0], -unit_normal[1], -unit_normal[2], -pos]
 
-    if pos < -epsilon:
+    # the rounding error on `pos` grows with the distance of the points from
+    # the origin: a plane through the origin defined by points a few metres
+    # away must still be recognised as such
+    pos_epsilon = epsilon * max(1.0, sqrt(max(mag2(pt1), mag2(pt2),
+                                              mag2(pt3))))
+    if pos < -pos_epsilon:
         # make sure the origin lies on the negative side of the plane
         return flipped_params
-    if pos > epsilon:
+    if pos > pos_epsilon:
         return params
 
     # Here we are in the D=0 case. The origin lies in the plane; ensure that
